@@ -311,3 +311,17 @@ Proof. reflexivity. Qed.
 (* ---------- plain data ---------- *)
 Theorem fields_forwarded : field_forwarding = field_spec.
 Proof. reflexivity. Qed.
+
+(* ---------- constructors ---------- *)
+Fixpoint dedup (l : list (string * string)) : list (string * string) :=
+  match l with
+  | [] => []
+  | x :: r => if existsb (fun y => String.eqb (fst x) (fst y) && String.eqb (snd x) (snd y)) r then dedup r else x :: dedup r
+  end.
+Theorem ctor_plumbing_ok :
+  forallb plumbing_row_ok ctor_plumbing = true /\
+  forallb (fun c => existsb (fun row : string * string * string * string => let '(f, callee, _, _) := row in
+                                String.eqb f (fst c) && String.eqb callee (snd c)) ctor_plumbing) ctor_spec = true /\
+  List.length (dedup (map (fun row : string * string * string * string => let '(f, callee, _, _) := row in (f, callee)) ctor_plumbing))
+    = List.length ctor_spec.
+Proof. vm_compute. repeat split. Qed.
